@@ -16,8 +16,8 @@ RULE = ("cases from the seed: base shape 1..4 cells per axis (<= 3 when three ax
         "sigma_H, all tiled; random (complex for Bloch) fields tiled with the per-copy phase; 1..4 steps. Oracle: "
         "forward^s(supercell) = tile(forward^s(base)) to 1e-9. K: forward^s of both containers vs model `fwd`; Bloch ghost "
         "phase of the placed boundaries vs exp(i k L). General non-uniform widths on a tiled axis are the known finding "
-        "'seam dual width' (backward metric uses w[-1] := w[0] instead of wrapping). Every run also contains forced oracle-only "
-        "cases (no Lean tier) with a FULL 9-component symmetric positive definite inverse-permittivity tensor and with a full "
+        "'seam dual width' (backward metric uses w[-1] := w[0] instead of wrapping). Every run also contains forced "
+        "cases (K: both containers vs the any-tier model YeeAniso, op `afwd`; theorem C09_aniso_tile_steps) with a FULL 9-component symmetric positive definite inverse-permittivity tensor and with a full "
         "inverse-permeability tensor (off-diagonals non-zero, tiled) on a tiled Bloch axis with k != 0, uniform grid; the Bloch "
         "axis rotates over x/y/z with the seed. One more oracle-only case per run (thorough: 6): a block of a material with an "
         "ORIENTED Lorentz pole (off-diagonal ADE coupling tensor, built with fdtdx.LorentzPole(orientation=...) through "
@@ -255,11 +255,15 @@ def one_case(ctx, c, sample=False):
     base, sup = scenes(c)
     out = impl_pair(c, base, sup)
     cplx = c["bloch"]
-    aniso = c["eps_tier"] == 9 or c["mu_tier"] == 9      # full tensors: no Lean tier, implementation oracle only
-    for nm in (() if aniso else ("base", "super")):
+    aniso = c["eps_tier"] == 9 or c["mu_tier"] == 9      # full tensors: any-tier model YeeAniso (op afwd)
+    for nm in ("base", "super"):
         o = out[nm]
         sc = o["scene"]
-        line = Y.request(sc, "fwd", o["E0"], o["H0"], o["mats"][0], o["mats"][1], o["mats"][2], o["mats"][3], None, c["steps"], is_complex=cplx)
+        if aniso:
+            from .yee_aniso_api import request_aniso
+            line = request_aniso(sc, "afwd", o["E0"], o["H0"], o["mats"][0], o["mats"][1], o["mats"][2], o["mats"][3], None, c["steps"], is_complex=cplx)
+        else:
+            line = Y.request(sc, "fwd", o["E0"], o["H0"], o["mats"][0], o["mats"][1], o["mats"][2], o["mats"][3], None, c["steps"], is_complex=cplx)
         mE, mH = Y.decode_fields(ctx.driver.ask(line), sc.shape, cplx)
         ctx.expect_close(f"forward ({nm} cell)", c, np.concatenate([o["E"].ravel(), o["H"].ravel()]), np.concatenate([mE.ravel(), mH.ravel()]))
     # ghost-cell phase convention: base boundary exp(i k L), supercell boundary exp(i k m L)
